@@ -154,6 +154,28 @@ def light_checks(sig, viol):
     if it[0] != 'ok' or list(it[1].parameters) != list(sig.parameters):
         viol('replace-ignores-override', {'signature': str(sig), 'what': 'parameters given as a generator',
                                           'result': str(it[1]) if it[0] == 'ok' else repr(it)}, {})
+    params = list(sig.parameters.values())
+    if len(params) >= 2:
+        # upgraded parameters handed back together with one plain inspect.Parameter: the upgraded ones stay as they are
+        import warnings
+        plain_last = inspect.Parameter(params[-1].name, params[-1].kind, default=params[-1].default, annotation=params[-1].annotation)
+        with warnings.catch_warnings():
+            warnings.simplefilter('ignore')
+            mx = safe(lambda: sig.replace(parameters=params[:-1] + [plain_last]))
+        if mx[0] != 'ok' or any(q.upgraded_annotation is not p.upgraded_annotation or q.sources != p.sources
+                                for p, q in zip(params[:-1], list(mx[1].parameters.values())[:-1])):
+            viol('replace-loses-provenance-or-annotation',
+                 {'signature': str(sig), 'what': 'replace(parameters=<upgraded ones unchanged + one plain inspect.Parameter>)',
+                  'result': str(mx[1]) if mx[0] == 'ok' else repr(mx)}, {'what': 'mixed'})
+    if params:
+        # dropping a parameter from a copy says nothing about the signature it was copied from
+        before = alg.src_key(sig)
+        dropped = safe(lambda: sig.replace(parameters=params[1:]))
+        again = safe(lambda: sig.replace())
+        if alg.src_key(sig) != before or (again[0] == 'ok' and alg.src_key(again[1]) != before):
+            viol('replace-loses-provenance-or-annotation',
+                 {'signature': str(sig), 'what': 'replace(parameters=<all but the first>) changed the provenance of the signature it was called on',
+                  'sources_now': alg.src_show(sig)}, {'what': 'receiver'})
     marker = {'+depths': {}, 'marker': [len]}
     r2 = safe(lambda: sig.replace(sources=marker))
     if r2[0] != 'ok' or r2[1].sources is not marker:
